@@ -76,6 +76,9 @@ func (env *Env) mapLike(v TV) (string, *types.Map, bool) {
 	if m := omMap(v.Ty); m != nil {
 		return v.T, m, true
 	}
+	if el := msElem(v.Ty); el != nil {
+		return msRef(v.T), msMap(el), true
+	}
 	if st, i, m := omWrapper(v.Ty); m != nil {
 		// nil wrapper: the field load yields some value; guard with the wrapper's nil-ness
 		inner := sel(env.vc.get(env.heap, env.vc.compField(st, i)), v.T)
